@@ -31,6 +31,17 @@ def typed_addl_null(c, doc):
     return walk(c.schema, doc)
 
 
+def has_typed_addl(s):
+    if isinstance(s, dict):
+        ap = s.get("additionalProperties")
+        if isinstance(ap, dict) and s.get("properties") and types_of(ap):
+            return True
+        return any(has_typed_addl(v) for v in s.values())
+    if isinstance(s, list):
+        return any(has_typed_addl(v) for v in s)
+    return False
+
+
 def run(ctx):
     ctx.proof_step(PROPS_FILE)
     n = 40 if ctx.tier == "quick" else 500
@@ -77,8 +88,18 @@ def run(ctx):
     run_cases(ctx, cases2, "c19i")
     nv = 0
     allc = cases + cases2
-    stats = {"REJ": 0, "ACC": 0, "PANIC": 0, "rej_with_prior": 0}
+    stats = {"REJ": 0, "ACC": 0, "PANIC": 0, "rej_with_prior": 0, "programs_wf": 0, "programs_not_wf": 0}
     for c in allc:
+        if c.wf is True:
+            stats["programs_wf"] += 1
+        elif c.wf is False:
+            stats["programs_not_wf"] += 1
+            # WfP.wf_ty is the hypothesis of C19_total; the only generated shape outside it is the additional-properties block
+            # after a typed map (recorded finding C19-typed-addl-null); anything else outside it is no longer covered by the theorem
+            if not has_typed_addl(c.schema) and nv == 0:
+                ctx.violation("tie", dict(c.replay_obj(), correspondence="RunCore.case_wf (hypothesis wf_ty of theorem C19_total)"),
+                              "the type generated for this schema is outside the well-formedness hypothesis of C19_total", no_input=True)
+                nv += 1
         if not c.build_ok:
             ctx.violation("oracle", dict(c.replay_obj(), build_err=c.build_err), "emitted code does not compile: %s" % c.build_err[:300])
             nv += 1
@@ -99,6 +120,8 @@ def run(ctx):
                     t = [x for sc in c.scan.values() for x in sc["types"] if x["name"] == d["t"]]
                     if t and any(f["name"] == "AdditionalProperties" and f["type"].startswith("map[") and f["type"] != "map[string]interface{}" for f in t[0].get("fields", [])):
                         continue
+                if c.wf and not c.mismatches:
+                    d["wf_contradiction"] = True   # C19_total says the model cannot crash here: the model no longer describes the code
                 if nv < 6:
                     ctx.violation("oracle", c.replay_obj(di), "generated unmarshaler of %s panicked on %r (prior %s): %s"
                                   % (d.get("t", "Root"), d.get("raw", json.dumps(d["doc"]))[:200], d.get("prior"), o.get("err", "")[:200]))
